@@ -24,7 +24,7 @@ DEFAULT_SEED = 404
 RUNS = {"quick": 1200, "thorough": 80000}
 JOBS = {"quick": 8, "thorough": 16}
 SEARCH_SPACE = "world states (octree x increasing bound-key sequences incl. tiny/clustered ranges x ghost population) x interval predicates on axis subsets x value predicates x explicit cpu lists (no faults)"
-RULE = ("one run = one world loaded fully and selectively (1-3 selections) by fresh datasets; distinct = hash of (world, selections); "
+RULE = ("one run = one world loaded fully and selectively (1-3 selections) by fresh datasets (25%: the argument objects were used by an earlier load; 20%: the selective load is made on a dataset already holding the full load); distinct = hash of (world, selections); "
         "non-trivial = Hilbert ordering with >= 2 ranks and a position predicate that excludes at least one rank's file, or an explicit cpu_list")
 ASSUMPTIONS = [
     "oct ownership follows RAMSES: an oct belongs to the rank whose key range contains the Hilbert key (at levelmax+1 bits) of its father cell's centre; the level-1 oct to the rank of the box centre",
@@ -110,6 +110,7 @@ def generate(rng, tier):
     sels = [gen_selection(rng, p, leaves) for _ in range(rng.choice([1, 2, 3]))]
     for s in sels:
         s["warm"] = rng.random() < 0.25
+        s["on_loaded"] = rng.random() < 0.2
     return {"world": p, "selections": sels}
 
 
@@ -175,9 +176,17 @@ def execute(case, stats):
                     disk.load(**kw)
                 except Exception:
                     pass  # the judged load below reports
+            ds2 = None
+            if sel.get("on_loaded"):
+                # the selective load is made on a dataset object that already holds the full load
+                stats.inc("probe.selective_load_on_a_dataset_holding_the_full_load")
+                try:
+                    ds2, _ = disk.load()
+                except Exception:
+                    ds2 = None
             try:
                 seam = FsSeam()
-                sub, out = disk.load(seam=seam, **kw)
+                sub, out = disk.load(ds=ds2, seam=seam, **kw)
             except Exception as e:
                 import traceback
 
@@ -239,7 +248,7 @@ def measure(case):
     sels = case["selections"]
     return (len(sels), p["ncpu"], p["levelmax"], sum(len(s["intervals"]) + len(s["values"]) + (1 if s["cpu_list"] else 0) for s in sels),
             p["maxcells"], len(p["hydro_vars"]) + sum(1 for s in sels if s.get("level")), int(bool(p["grav"])) + int(bool(p["rt_vars"])) + int(p["sink"] is not None), p["nboundary"],
-            int(p["units"] != [1.0, 1.0, 1.0]), int(p["ghost_p"] * 10), p["noutput"], int(p["key_quad"]), p["levelmin"], sum(1 for s in sels if s.get("warm")))
+            int(p["units"] != [1.0, 1.0, 1.0]), int(p["ghost_p"] * 10), p["noutput"], int(p["key_quad"]), p["levelmin"], sum(1 for s in sels if s.get("warm")) + sum(1 for s in sels if s.get("on_loaded")))
 
 
 def reductions(case, viol):
@@ -272,3 +281,5 @@ def reductions(case, viol):
             yield dict(case, selections=sels[:i] + [dict(s, cpu_list=None)] + sels[i + 1:])
         if s.get("warm"):
             yield dict(case, selections=sels[:i] + [dict(s, warm=False)] + sels[i + 1:])
+        if s.get("on_loaded"):
+            yield dict(case, selections=sels[:i] + [dict(s, on_loaded=False)] + sels[i + 1:])
